@@ -332,8 +332,8 @@ theorem released_in_one_quiet_cycle (own : String) (s : State) (e : Env)
 
   `LReachG`: any run of the wake-up layer — events are consumed one per cycle, a cycle may leave early as
   inconsistent only while another event is queued, cycles that returned delays sleep and touch — under
-  `LGuard`: no HTTP 422 injected without a real write, and no patch whose dict content changes nothing
-  (open finding F7, `lost_wakeup_witness`). Restarts, foreign writes, conflicts, completions are free. -/
+  `LGuard`: no HTTP 422 injected without a real write (`injected_422_loses_wakeup` shows why it is needed).
+  Restarts, foreign writes, genuine conflicts, completions, no-op patches are free. -/
 
 /-- The wake-up layer only schedules the base LTS: every safety theorem above holds of its runs. -/
 theorem wakeup_layer_refines {own : String} {s : LState} (h : LReach own s) : Reach own s.base :=
@@ -410,24 +410,22 @@ theorem released_under_fairness {own : String} {s : LState} (h : LReachG own s)
         · exact hop l hl
       · simp only [lrun, h1, Option.bind_some]; exact hrun
 
-/-- The exclusion of no-op patches in `LGuard` is necessary (finding F7 in the model): a daemon is still
-exiting when the deletion is requested; the cycles return delays but their patch has dict content that
-changes nothing, so neither a sleep nor an event follows; the daemon exits — and the object waits, settled,
-with NO enabled step of the operator: nothing will ever release it. -/
-theorem lost_wakeup_witness (own : String) :
+/-- The remaining conjunct of `LGuard` is necessary: HTTP 422 injected on the release patch twice, with no
+concurrent write behind it. The patch is non-empty and no version comes back, so the sleep is skipped; no event
+follows; the queued events are used up — the object waits, settled, with NO enabled step of the operator.
+(Not a defect of kopf: the API server answers 422 to the `test` op only after a write, whose event wakes the worker.) -/
+theorem injected_422_loses_wakeup (own : String) :
     ∃ s, LReach own s ∧ Waiting own s.base ∧ Settled s.base ∧
       ∀ l, LLabel.isOperator l = true → lstep own s l = none := by
-  let b0 : State := { w0 with matchDel := false, matchDmn := true }
-  let s0 : LState := { base := b0, events := 1, sleeping := false, cycDelays := false, cycMerge := false, cycChanges := false }
-  let noop : Env := { quiet with merge := true }
-  let ls : List LLabel := [.base (.decide quiet), .base (.jsonPatch false), .base .mark,
-    .base (.decide noop), .base .mergePatch, .base (.jsonPatch false),
-    .base (.decide noop), .base .mergePatch, .base (.jsonPatch false), .base (.daemonExits false)]
+  let s0 : LState := { base := w0, events := 1, sleeping := false, cycDelays := false, cycMerge := false, cycChanges := false }
+  let ls : List LLabel := [.base (.decide quiet), .base (.jsonPatch false), .base .mark, .base .handlerFinishes,
+    .base (.decide quiet), .base (.jsonPatch true), .base (.decide quiet), .base (.jsonPatch true)]
   have hrun : lrun own s0 ls = some
-      { base := { b0 with marked := true, fins := [own], rv := 2, dmnLive := false },
-        events := 0, sleeping := false, cycDelays := true, cycMerge := true, cycChanges := false } := by
-    simp [ls, s0, b0, noop, lrun, lstep, step, stepDecide, stepJson, stepMerge, stepMark, w0, quiet, decision, inputs,
-      Decision.fns, mustBlockG, addG, removeG, earlyG, releaseG, applyFns, Fn.apply, blockDeletion, sleepsAfter]
+      { base := { w0 with marked := true, fins := [own], rv := 2, delDone := true },
+        events := 0, sleeping := false, cycDelays := false, cycMerge := false, cycChanges := false } := by
+    simp [ls, s0, lrun, lstep, step, stepDecide, stepJson, stepMark, w0, quiet, decision, inputs,
+      Decision.fns, mustBlockG, addG, removeG, earlyG, releaseG, applyFns, Fn.apply, blockDeletion, allowDeletion, allowLoop,
+      sleepsAfter, changedUnwritten, carry, ownFns]
   have hreach : ∀ (ls : List LLabel) (s s' : LState), LReach own s → lrun own s ls = some s' → LReach own s' := by
     intro ls
     induction ls with
@@ -441,12 +439,30 @@ theorem lost_wakeup_witness (own : String) :
   refine ⟨_, hreach ls s0 _ (LReach.init ?_) hrun, ?_, ?_, ?_⟩
   · exact ⟨⟨rfl, rfl, rfl, rfl, rfl, rfl, rfl⟩, rfl, rfl, rfl, rfl, rfl⟩
   · exact ⟨rfl, rfl, by simp⟩
-  · exact ⟨fun h => (by cases h), rfl⟩
+  · exact ⟨fun _ => rfl, rfl⟩
   · intro l hl
     cases l with
     | touch => simp [lstep]
     | base bl =>
-      cases bl <;> simp [LLabel.isOperator] at hl <;> simp [lstep, step, stepMerge, stepJson, b0, w0]
+      cases bl <;> simp [LLabel.isOperator] at hl <;> simp [lstep, step, stepMerge, stepJson, w0]
+
+/-- The history of the former finding F7 (repaired in 7224f57), now live: a daemon is still exiting when the
+deletion is requested; the cycles return delays and their patch has dict content that changes nothing. The
+sleep is no longer skipped: the worker sleeps and will touch the object — and after the daemon's exit the touch
+plus one quiet cycle release it (before the repair this state had `sleeping = false` and NO enabled step). -/
+example (own : String) :
+    let b0 : State := { w0 with matchDel := false, matchDmn := true }
+    let s0 : LState := { base := b0, events := 1, sleeping := false, cycDelays := false, cycMerge := false, cycChanges := false }
+    let noop : Env := { quiet with merge := true }
+    lrun own s0 [.base (.decide quiet), .base (.jsonPatch false), .base .mark,
+      .base (.decide noop), .base .mergePatch, .base (.jsonPatch false),
+      .base (.decide noop), .base .mergePatch, .base (.jsonPatch false), .base (.daemonExits false),
+      .touch, .base (.decide quiet), .base (.jsonPatch false)] =
+    some { base := { b0 with gone := true, marked := true, fins := [], rv := 3, dmnLive := false },
+           events := 1, sleeping := false, cycDelays := false, cycMerge := false, cycChanges := false } := by
+  simp [lrun, lstep, step, stepDecide, stepJson, stepMerge, stepMark, w0, quiet, decision, inputs,
+    Decision.fns, mustBlockG, addG, removeG, earlyG, releaseG, applyFns, Fn.apply, blockDeletion, allowDeletion, allowLoop,
+    sleepsAfter, changedUnwritten]
 
 /-- Added in the first cycle that sees an unmarked object without the finalizer while a
 finalizer-requiring handler matches it — whatever is carried, whatever the timing. -/
@@ -580,7 +596,7 @@ example : ∃ s, LReachG "k" s ∧ Waiting "k" s.base ∧ Settled s.base ∧ s.e
   let mk (b : State) (n : Nat) : LState :=
     { base := b, events := n, sleeping := false, cycDelays := false, cycMerge := false, cycChanges := false }
   have s0 : LReachG "k" (mk w0 1) := LReachG.init ⟨⟨rfl, rfl, rfl, rfl, rfl, rfl, rfl⟩, rfl, rfl, rfl, rfl, rfl⟩
-  have s1 := LReachG.step (l := .base (.decide quiet)) s0 (by intro h; cases h)
+  have s1 := LReachG.step (l := .base (.decide quiet)) s0 trivial
     (s' := mk { w0 with pending := some ⟨[Fn.block], 0, [], false⟩ } 0) (by decide)
   have s2 := LReachG.step (l := .base (.jsonPatch false)) s1 rfl (s' := mk { w0 with fins := ["k"], rv := 1 } 1) (by decide)
   have s3 := LReachG.step (l := .base .mark) s2 trivial (s' := mk { w0 with fins := ["k"], rv := 2, marked := true } 2) (by decide)
